@@ -229,7 +229,8 @@ func (c *Connect) unpackPayload(bufr *bytes.Buffer) error {
 		}
 	}
 	if c.PasswordFlag {
-		c.Password, err = readUTF8String(true, bufr)
+		// the password is binary data
+		c.Password, err = readUTF8String(false, bufr)
 		if err != nil {
 			return err
 		}
